@@ -32,7 +32,7 @@ def run(ctx):
         ctx.violation(v["key"], v["what"], v.get("replay"))
     log("[c11] sizes=%d subsets=%d evaluations=%d witness positions=%d tampered rejected=%d" % (
         res["sizes"], res["subsets"], res["evaluations"], res["witness_positions"], res["tampered_rejected"]))
-    if res["sizes"] < maxn or res["subsets"] < 100:
+    if not ctx.violations and (res["sizes"] < maxn or res["subsets"] < 100):
         raise Inconclusive("rows missing: vacuous")
     cov = dict(traces_validated_against_impl=res["sizes"] + res["subsets"],
                samples=[dict(n=5, subset=[3, 5], what="append 5 leaves, prove {3,5}, verify, tamper, update through the proof, reload")],
